@@ -35,6 +35,16 @@ type dInput struct {
 	Ptr   *dInner
 	any   any
 }
+type dEmbInner struct{ Name string }
+type dEmbedded struct {
+	*dEmbInner
+	Age int
+}
+type dEmbeddedVal struct {
+	dEmbInner
+	Age int
+}
+
 type dEmptyTag struct {
 	A string `zog:""`
 	B int    `json:""`
@@ -50,9 +60,9 @@ type dDest struct {
 		Zip  string
 		Tags []string
 	}
-	Ptr  *dInner
-	List []struct{ A int }
-	E    dEmptyTag
+	Ptr                                              *dInner
+	List                                             []struct{ A int }
+	E                                                dEmptyTag
 	Abcdefghijklmnopqrstuvwxyzabcdefghijklmnopqrstuv int
 	Ébène                                            string
 }
@@ -66,6 +76,7 @@ func dynSchema() *z.StructSchema {
 		"tags":  z.Slice(z.String().Min(1)),
 		"inner": z.Struct(z.Schema{"city": z.String().Required(), "zip": z.String(), "tags": z.Slice(z.String())}),
 		"ptr":   z.Ptr(z.Struct(z.Schema{"City": z.String(), "Tags": z.Slice(z.String())})),
+		"Name":  z.String(),
 		"list":  z.Slice(z.Struct(z.Schema{"a": z.Int().Required()})),
 		"e":     z.Struct(z.Schema{"a": z.String().Min(5), "b": z.Int()}),
 		"abcdefghijklmnopqrstuvwxyzabcdefghijklmnopqrstuv": z.Int().Required(),
@@ -82,7 +93,14 @@ func dynZoo() []any {
 	ppp := &pp
 	ch := make(chan int)
 	long := strings.Repeat("k", 40)
+	var nilInner *dInner
+	var nilInput *dInput
+	pNilInput := &nilInput
 	out := []any{
+		// pointers whose INNER pointer is nil, at depth 2 and 3, top level and nested
+		&nilInput, &pNilInput, map[string]any{"inner": &nilInner, "ptr": &nilInner, "e": &nilInput},
+		// embedded struct pointers (nil and non-nil) promoting a schema key
+		dEmbedded{Age: 3}, &dEmbedded{Age: 3}, dEmbedded{dEmbInner: &dEmbInner{Name: "n"}}, dEmbeddedVal{}, map[string]any{"inner": dEmbedded{}, "list": []any{dEmbedded{}}},
 		nil, nilPtr, nilMap, nilNamed, nilSlice, pp, ppp, &ppp,
 		map[string]any{}, map[string]any{"name": "bob", "age": 3, "inner": map[string]any{"town": "x"}},
 		dNamedMap{"name": "bob", "inner": dNamedMap{"town": "x"}}, dNamedStrMap{"name": "bob"},
